@@ -173,3 +173,67 @@ Example close_nonvacuous :
   fst s = {| x_src_closed := true; x_tgt_closed := true; x_cancelled := true; x_released := true; x_reported := true |}
   /\ closer_pc s = Some CDone.
 Proof. vm_compute. split; reflexivity. Qed.
+
+(* ---------------- the half-close relay: the listening peer learns that the other end closed OR FAILED ---------------- *)
+Definition hneed (a : hthread) : nat :=
+  match a with HCopy n _ => n + 2 | HHalfClose _ => 1 | _ => 0 end.
+Definition a_ok (a : hthread) (sh : hshared) : Prop :=
+  match a with HCopy _ _ | HHalfClose _ => True | HDone => h_peerB_sees_end sh = true | _ => False end.
+Definition b_ok (b : hthread) : Prop := match b with HListen | HHalfCloseBack | HDone => True | _ => False end.
+
+Lemma relay_gen : forall sched sh a b, a_ok a sh -> b_ok b -> hneed a <= count_occ Nat.eq_dec sched 0 ->
+  h_peerB_sees_end (fst (run _ _ (hstep HalfCloseAlways) (sh, [a; b]) sched)) = true.
+Proof.
+  induction sched as [|i r IH]; intros sh a b Ha Hb Hn; cbn [run fold_left count_occ] in *.
+  - destruct a; cbn in *; try lia; try contradiction. exact Ha.
+  - unfold sys_step. cbn [fst snd]. destruct i as [|[|i]]; cbn [nth_error].
+    + (* direction A->B steps *)
+      destruct (Nat.eq_dec 0 0) as [_|E]; [|congruence].
+      destruct a as [[|n] k|k| | |]; cbn in Ha; try contradiction; cbn [hstep upd_nth fst snd].
+      * apply IH; cbn; auto. cbn in Hn. lia.
+      * apply IH; cbn; auto. cbn in Hn. lia.
+      * destruct k; apply IH; cbn; auto; lia.
+      * apply IH; cbn; auto. lia.
+    + (* direction B->A steps: it never touches what peer B has seen *)
+      destruct (Nat.eq_dec 1 0) as [E|_]; [discriminate|].
+      destruct b; cbn in Hb; try contradiction; cbn [hstep].
+      * destruct (h_peerB_sees_end sh) eqn:E; cbn [upd_nth fst snd]; apply IH; cbn; auto.
+      * cbn [upd_nth fst snd]. apply IH; cbn; auto; destruct a; cbn in *; auto.
+      * cbn [upd_nth fst snd]. apply IH; cbn; auto.
+    + assert (En : nth_error (@nil hthread) i = None) by (destruct i; reflexivity). rewrite En.
+      destruct (Nat.eq_dec (S (S i)) 0) as [E|_]; [discriminate|]. apply IH; auto.
+Qed.
+
+(* closure propagation for "closes" (EndEOF) and "fails" (EndErr) alike: once direction A->B has had n+2 steps, B's peer
+   has seen the end of the stream — under every schedule, whatever the other direction does *)
+Theorem relay_peer_sees_end_on_close_or_failure : forall n kind sched,
+  n + 2 <= count_occ Nat.eq_dec sched 0 ->
+  h_peerB_sees_end (fst (relay_run HalfCloseAlways n kind sched)) = true.
+Proof. intros n kind sched H. unfold relay_run. apply relay_gen; cbn; auto. Qed.
+
+(* half-close only after a clean EOF: when end A FAILS, the listening peer never sees the end and the relay never returns *)
+Theorem relay_eof_only_policy_refuted : forall n sched,
+  h_peerB_sees_end (fst (relay_run HalfCloseOnEofOnly n EndErr sched)) = false /\
+  nth_error (snd (relay_run HalfCloseOnEofOnly n EndErr sched)) 1 = Some HListen.
+Proof.
+  intros n sched. unfold relay_run.
+  set (Inv := fun s : hshared * list hthread => h_peerB_sees_end (fst s) = false /\ nth_error (snd s) 1 = Some HListen /\
+                     exists a, snd s = [a; HListen] /\ match a with HCopy _ EndErr | HHalfClose EndErr | HDone => True | _ => False end).
+  assert (Hstep : forall s i, Inv s -> Inv (sys_step _ _ (hstep HalfCloseOnEofOnly) s i)).
+  { intros [sh ls] i (Hp & _ & a & Hls & Ha). unfold Inv. cbn [fst snd] in *. subst ls. unfold sys_step. cbn [fst snd].
+    destruct i as [|[|i]]; cbn [nth_error].
+    - destruct a as [[|m] k|k| | |]; try contradiction; try destruct k; try contradiction; cbn;
+        (split; [exact Hp|]); (split; [reflexivity|]); eexists; (split; [reflexivity|exact I]).
+    - cbn [hstep]. rewrite Hp. cbn. split; [exact Hp|]. split; [reflexivity|]. exists a. auto.
+    - assert (En : nth_error (@nil hthread) i = None) by (destruct i; reflexivity). rewrite En. cbn.
+      split; [exact Hp|]. split; [reflexivity|]. exists a. auto. }
+  assert (Hinit : Inv ({| h_peerB_sees_end := false; h_peerA_sees_end := false |}, [HCopy n EndErr; HListen])).
+  { unfold Inv. cbn. split; [reflexivity|]. split; [reflexivity|]. eexists. split; [reflexivity|exact I]. }
+  destruct (inv_all_schedules _ _ (hstep HalfCloseOnEofOnly) Inv Hstep sched _ Hinit) as (A & B & _).
+  split; assumption.
+Qed.
+
+(* non-vacuity: end A fails after two chunks, B's peer reacts to the half-close, the relay returns *)
+Example relay_returns_after_failure :
+  relay_returned (relay_run HalfCloseAlways 2 EndErr [0; 1; 0; 0; 0; 1; 1]) = true.
+Proof. vm_compute. reflexivity. Qed.
